@@ -450,5 +450,59 @@ def r15_11(ctx):
     return r
 
 
+def _oty(b, o):
+    if o.get("k") == "c":
+        return o.get("ty", "")
+    p_ = o.get("p", {})
+    if "p" in p_:
+        return "?"
+    return b.locals[p_["l"]]["ty"]
+
+
+def r15_12(ctx):
+    """'NACK ... preserves the set of lost sequence numbers across wraparound': RTP sequence numbers live modulo 2^16.
+    In the NACK code (receiver gap detection, sender NACK buffer, pair packing / unpacking) a run of sequence numbers
+    is walked with wrapping steps and two sequence numbers are related through wrapping_sub only. A plain `a..b` over
+    u16 values is empty when the run crosses 65535 -> 0, and a raw `<` orders them wrongly there. Constant-bounded
+    ranges (the 16 BLP bit positions) are not sequence numbers."""
+    r = RuleResult("R15.12", "K6/lint", "NACK code never iterates or orders RTP sequence numbers with non-wrapping u16 ranges / comparisons")
+    nfn = 0
+    n = 0
+    for b in ctx.facts.all_bodies():
+        nm = b.name
+        if "::tests::" in nm or "nack" not in nm.lower():
+            continue
+        if not nm.lstrip("<").startswith(("peer_connection::", "rtp::")):
+            continue
+        nfn += 1
+        for bi, si, st in b.assigns():
+            rv = st["rv"]
+            if rv["r"] == "agg" and rv.get("ak") == "adt" and rv["adt"].endswith(("ops::Range", "ops::RangeInclusive")):
+                tys = [_oty(b, o) for o in rv["ops"]]
+                if "u16" in tys:
+                    n += 1
+                    if all(o.get("k") == "c" for o in rv["ops"]):
+                        r.ok({"site": b.where(bi, si), "range": "constant bounds (bit positions)"})
+                    else:
+                        r.violate(nm, "seq:range", b.where(bi, si),
+                                  "a plain range over u16 sequence numbers (%s): empty when the run crosses 65535 -> 0, so the lost "
+                                  "packets around the wrap are never NACKed" % ", ".join(mir.show(b.term_operand(o), 50) for o in rv["ops"]))
+            if rv["r"] == "bin" and rv["op"] in ("Lt", "Le", "Gt", "Ge"):
+                if _oty(b, rv["a"]) == "u16" and _oty(b, rv["b"]) == "u16" and rv["a"].get("k") != "c" and rv["b"].get("k") != "c":
+                    n += 1
+                    r.violate(nm, "seq:cmp", b.where(bi, si),
+                              "two u16 sequence numbers ordered with a raw `%s`: wrong across the 65535 -> 0 wrap (use wrapping_sub)" % rv["op"])
+        for bi, t, p in b.calls():
+            if p and "RangeInclusive" in p and p.endswith("::new") and any(_oty(b, a) == "u16" for a in t["a"]) and bi not in b.cleanup:
+                n += 1
+                if all(a.get("k") == "c" for a in t["a"]):
+                    r.ok({"site": b.where(bi), "range": "constant bounds"})
+                else:
+                    r.violate(nm, "seq:range", b.where(bi), "a plain inclusive range over u16 sequence numbers: empty / wrong across the wrap")
+    r.ok({"NACK functions scanned": nfn, "u16 ranges / comparisons seen": n})
+    r.need("NACK functions scanned", nfn, 6)
+    return r
+
+
 def run(ctx):
-    return [r15_1(ctx), r15_2(ctx), r15_3(ctx), r15_4(ctx), r15_5(ctx), r15_6(ctx), r15_7(ctx), r15_8(ctx), r15_9(ctx), r15_10(ctx), r15_11(ctx)]
+    return [r15_1(ctx), r15_2(ctx), r15_3(ctx), r15_4(ctx), r15_5(ctx), r15_6(ctx), r15_7(ctx), r15_8(ctx), r15_9(ctx), r15_10(ctx), r15_11(ctx), r15_12(ctx)]
